@@ -450,7 +450,7 @@ fn n_calls_bai(refs: &[BRef], unplaced: Option<u64>) -> usize {
         + unplaced.is_some() as usize
 }
 
-fn ixc_scripts(rng: &mut Rng, n: usize, every: bool) -> Vec<Vec<Fault>> {
+pub fn ixc_scripts(rng: &mut Rng, n: usize, every: bool) -> Vec<Vec<Fault>> {
     let mut scripts = vec![vec![]];
     let ks: Vec<usize> = if every { (0..n).collect() } else { (0..4).map(|_| rng.below(n as u64) as usize).collect() };
     for k in ks {
